@@ -647,8 +647,58 @@ class Interp:
 
         return w(p)
 
+    def _nest_literal_payloads(self, arms):
+        """`V('@') => A, V(f) => B`  ≡  `V(p) => match p { '@' => A, f => B }`: arms of one single-payload variant that differ
+        in a literal on the payload are read as a nested match on the payload (the spelling the tables are frozen in)."""
+        out, i = [], 0
+        while i < len(arms):
+            a = arms[i]
+            p = a["pat"]
+            while p["k"] in ("ref", "typed"):
+                p = p["pat"]
+
+            def lit_payload(q):
+                while q["k"] in ("ref", "typed"):
+                    q = q["pat"]
+                return q["k"] == "tstruct" and len(q["elems"]) == 1 and q["elems"][0]["k"] == "lit"
+
+            if lit_payload(p) and a.get("guard") is None:
+                group, j = [a], i + 1
+                while j < len(arms):
+                    q = arms[j]["pat"]
+                    while q["k"] in ("ref", "typed"):
+                        q = q["pat"]
+                    if q["k"] == "tstruct" and q["segs"] == p["segs"] and len(q["elems"]) == 1 and arms[j].get("guard") is None:
+                        group.append(arms[j])
+                        j += 1
+                        if rx.is_catchall(q["elems"][0]):
+                            break
+                    else:
+                        break
+                last = group[-1]["pat"]
+                while last["k"] in ("ref", "typed"):
+                    last = last["pat"]
+                if len(group) >= 2 and rx.is_catchall(last["elems"][0]):
+                    var = "__payload%d" % i
+                    inner = []
+                    for g_ in group:
+                        gp = g_["pat"]
+                        while gp["k"] in ("ref", "typed"):
+                            gp = gp["pat"]
+                        inner.append(dict(g_, pat=gp["elems"][0]))
+                    scr = {"k": "path", "l": a.get("l"), "segs": [var], "gen": [[]], "qself": None, "global": False}
+                    body = {"k": "match", "l": a.get("l"), "scrut": scr, "arms": inner}
+                    newpat = dict(p, elems=[{"k": "ident", "l": a.get("l"), "name": var, "by_ref": False, "mut": False, "sub": None}])
+                    out.append(dict(a, pat=newpat, body=body))
+                    i = j
+                    continue
+            out.append(a)
+            i += 1
+        return out
+
     def ev_match(self, e, st):
         out = []
+        e = dict(e, arms=self._nest_literal_payloads(e["arms"]))
         for s1, sv in self.ev(e["scrut"], st):
             e = dict(e, arms=[dict(a_, pat=self.norm_pat(a_["pat"], sv)) for a_ in e["arms"]])
             # literal scrutinee: select statically when possible
